@@ -1069,6 +1069,12 @@ CORE_CLOS_FIXED = [
     "fn f(a) { let h = fn() { a }; a = a + 100; h() - a }\nlet r = f(1);\n",
     "let r = (fn(x) { fn(y) { x - y } })(10)(3);\n",
     "fn f(n) { let a = 0; let h = null; while a < n { a = a + 1; let b = a * a; h = fn() { b = b - a; b }; } h() - h() }\nlet r = f(3);\n",
+    # re-entrancy: a closure assigns to a captured variable while an EARLIER activation of the same closure object is still
+    # running (the free variables live in the closure object: the outer activation sees the inner one's assignment; the
+    # specification does not commit there)
+    "let g = null;\nfn mk() { let a = 0; return fn(n) { if n == 0 { a = 5; 0 } else { g(0); a } }; }\ng = mk();\nlet r = g(1);\n",
+    "let g = null;\nfn mk(a) { return fn(n) { if n > 0 { a = a + n; g(n - 1); a } else { a } }; }\ng = mk(10);\nlet r = g(3);\nlet s = g(0);\n",
+    "let g = null;\nfn mk() { let a = 1; return fn(n) { let before = a; if n > 0 { g(n - 1); } a = a * 2; before + a }; }\ng = mk();\nlet r = g(2);\n",
 ]
 
 
